@@ -355,6 +355,8 @@ def run(ctx: RuleContext, p: Program) -> None:
     ctx.try_rule(rule_builder_cons, p, 'BUILDER-CONS')
     ctx.try_rule(rule_parse_feed, p, 'PARSE-FEED')
     ctx.try_rule(rule_print_all, p, 'PRINT-ALL')
+    from . import round4
+    ctx.try_rule(round4.rule_text_verbatim, p, 'TEXT-VERBATIM')
     ctx.not_decided += ['that lark accepts a given text', 'that the LALR tree\'s leaves are visited in token order', 'CR/LF layouts',
                         'comment attribution effects (C04/C14)', 'spans of sub-models']
     ctx.assumptions += ['lark lexers emit tokens whose values concatenate to the input (contextual lexer, no %ignore left after '
